@@ -302,6 +302,11 @@ func (rn *Renderer) DocTokens(d *Doc) []Tok {
 func mustSeparate(a, b Tok) bool {
 	wordy := func(k TokKind) bool { return k == TName || k == TInt || k == TFloat }
 	if wordy(a.Kind) && wordy(b.Kind) {
+		// a name or a number directly followed by a NEGATIVE number needs nothing in between: "a-1" and "[1-2]" are two
+		// tokens each (the minus sign is neither a digit, a dot nor a name start)
+		if (b.Kind == TInt || b.Kind == TFloat) && strings.HasPrefix(b.Text, "-") {
+			return false
+		}
 		return true
 	}
 	if (a.Kind == TInt || a.Kind == TFloat) && b.Kind == TPunct && b.Text == "..." {
